@@ -30,7 +30,7 @@ EXTENDS Rec
 
 \* Is the loop driver of For a trampoline (iterates) or does the body's
 \* continuation re-enter it recursively?  Kept equal to the code at HEAD.
-Trampolined == FALSE
+Trampolined == TRUE
 
 W0(tape, budget) == [x |-> 0, log |-> <<>>, tape |-> tape, budget |-> budget,
                      step |-> None, depth |-> 0, maxd |-> 0, epoch |-> 0,
